@@ -8,7 +8,7 @@ ID = "C18"
 ENGINE = "size-parameterised families (all ordered pairs of self-nesting constructors, lengthening constructors) x terminators x sizes; work counters from a counting Tokenizer subclass"
 RULE = (
     "every ordered pair of self-nesting constructors (brackets, call, subscript, lambda, dict value, comprehension, "
-    "conditional, unary, ${}, $() nested through @() and directly, ![ ], @$(), call macros, tuple/starred targets, del targets, patterns, nested blocks of each compound "
+    "conditional, unary, ${}, $() nested through @() and directly, ![ ], @$(), call macros, bracketed command groups inside the four subprocess forms, tuple/starred targets, del targets, patterns, nested blocks of each compound "
     "statement) nested alternately, and every lengthening constructor (operator chains, argument lists, dict items, "
     "statement lists, string concatenation, decorators, attribute / subscript / comparison / assignment chains), each "
     "and long runs (64 ... 512 / 1024 copies) of four simple statements in front of nine fixed nested tails; the nesting and lengthening families "
@@ -52,10 +52,17 @@ CHAINS = [
 ]
 
 
+# bracketed groups inside a subprocess (taken as text): every pair of openers nested alternately, closed, unclosed (the
+# subprocess's own closer follows) and closed by the wrong bracket
+GROUP_NEST = [("gparen", "(a ", ")"), ("gbrack", "[a ", "]"), ("gbare", "( ", ")"), ("gsub", "$(a ", ")"), ("gbang", "![a ", "]"), ("gword", "a(", ")")]
+GROUP_TMPL = [("cap", "$(echo {})\n"), ("hid", "![echo {}]\n"), ("obj", "x = !(echo {} b)\n"), ("inj", "$(echo @$(c {}))\n")]
+
+
 def units(tier: str) -> list[tuple]:
     us: list[tuple] = []
     for i in range(len(NEST)):
         us.append(("pairs", i, tier))
+    us.append(("groups", tier))
     us.append(("targets", tier))
     us.append(("patterns", tier))
     for i in range(len(BLOCKS)):
@@ -119,6 +126,13 @@ def cases(unit: tuple) -> Iterator[dict]:
                                "tmpl": tmpl, "sizes": sizes(tier)}
                     yield {"family": f"target:{c1[0]}/{c2[0]}:{term[0]}:norhs", "kind": "pair", "c1": list(c1), "c2": list(c2), "term": list(term),
                            "tmpl": "{} =\n", "sizes": sizes(tier)}
+    elif k == "groups":
+        for c1 in GROUP_NEST:
+            for c2 in GROUP_NEST:
+                for term in TERMINATORS + [("wrong-closer", "a ]"), ("wrong-closer2", "a )")]:
+                    for tname, tmpl in GROUP_TMPL:
+                        yield {"family": f"group:{c1[0]}/{c2[0]}:{term[0]}:{tname}", "kind": "pair", "c1": list(c1), "c2": list(c2), "term": list(term),
+                               "tmpl": tmpl, "sizes": sizes(tier) + ([64] if tier == "quick" else [128])}
     elif k == "patterns":
         for c1 in PATTERN_NEST:
             for c2 in PATTERN_NEST:
